@@ -49,3 +49,12 @@ let () =
        | _ -> "err") | _ -> "?args");
   register "c12_target_size" (function [s] ->
       (match gd_target_size (c12_jnum s) with Some v -> "ok:" ^ string_of_z v | None -> "err") | _ -> "?args")
+
+(* c12_bufevo <maxbuf> <lens csv> <times csv>: times 0 = fast, 1 = between the thresholds, k >= 2 = slow with k seconds *)
+let () =
+  register "c12_bufevo" (function [mb; lens; times] ->
+      let lens = if lens = "-" then [] else List.map z_of_string (String.split_on_char ',' lens) in
+      let times = if times = "-" then [] else List.map int_of_string (String.split_on_char ',' times) in
+      let acks = List.map2 (fun l t -> { ga_len = l; ga_time = (if t = 0 then GdFast else if t = 1 then GdMid else GdSlow (z_of_int t)) }) lens times in
+      String.concat "," (List.map string_of_z (gd_capacities (z_of_string mb) acks))
+    | _ -> "?args")
